@@ -571,7 +571,7 @@ B_POSEPS = ("t4poseps", 2500000, 10 ** 7, 5000000)
 
 W_QUICK = (1250000, -2500000, 1234567, -1234564, -15000000, 20000000, "nan", "pinf", "ninf", 4, -6, 0)
 W_FULL = W_QUICK + (9999999, 10000001, -10000000, 5000004, 7500000, 3, 9999, 10000, -9996, 2499996, -1234567)
-W_FIVE = (1250000, 1234567, 20000000, "nan", 4)
+W_FIVE = (1234567, 20000000, "nan", 4)
 W_SIX = (1250000, -1234564, 20000000, "nan", -6)
 
 BASE = {"Ids": Def("{1, 2}"), "Rels": Def("{1, 2}"), "WVals": Def(W(*W_QUICK)), "MaxE": 1, "EForms": ["dict", "dictk", "list"],
@@ -610,6 +610,37 @@ def state_configs(q: bool):
     return cfgs
 
 
+def scratch_base(workdir: str) -> str:
+    """<workdir>/cases; when /dev/shm is usable it is a symlink into it: every case performs six
+    fsync'ed atomic writes and durability is not what this property is about (C08 covers it)"""
+    base = os.path.join(workdir, "cases")
+    if os.path.lexists(base):
+        if os.path.islink(base):
+            shutil.rmtree(os.path.realpath(base), ignore_errors=True)
+            os.unlink(base)
+        else:
+            shutil.rmtree(base, ignore_errors=True)
+    shm = "/dev/shm"
+    if os.environ.get("VERIF_C06_DISK") != "1" and os.path.isdir(shm) and os.access(shm, os.W_OK):
+        try:
+            import tempfile
+            target = tempfile.mkdtemp(prefix="verif_c06_", dir=shm)
+            os.symlink(target, base)
+            return base
+        except OSError:
+            pass
+    os.makedirs(base, exist_ok=True)
+    return base
+
+
+def drop_scratch(base: str) -> None:
+    if os.path.islink(base):
+        shutil.rmtree(os.path.realpath(base), ignore_errors=True)
+        os.unlink(base)
+    else:
+        shutil.rmtree(base, ignore_errors=True)
+
+
 def perms(n: int, which: List[str]) -> str:
     import random
     out = []
@@ -645,9 +676,16 @@ def check(run) -> None:
     run.rule = ("every state enumerated by Snapshot.tla is written, loaded into a fresh state and written again by the real code; "
                 "every directory enumerated by SnapshotDir.tla is built on disk and discovered; random GEL histories are "
                 "round-tripped through write-load chains; distinct = distinct state / directory / history")
-    base = os.path.join(run.workdir, "cases")
-    os.makedirs(base, exist_ok=True)
+    import time
+    base = scratch_base(run.workdir)
     nstate = 0
+    phases: Dict[str, float] = {}
+    t_ph = time.time()
+
+    def phase(name):
+        nonlocal t_ph
+        phases[name] = round(time.time() - t_ph, 1)
+        t_ph = time.time()
     for name, cs in state_configs(q):
         cfg = make_cfg(cs, INVS, [], emit=False, view=None, constraint="EmitCase")
         res = run.tlc("Snapshot", cfg, name=f"Snapshot_{name}", workers=8, timeout_s=900, defs=split_defs(cs))
@@ -663,9 +701,10 @@ def check(run) -> None:
         nstate += len(res.emitted)
         run.sample({"family": "state:" + name, "case": res.emitted[len(res.emitted) * 2 // 3]}, cap=4)
         run.constants[f"Snapshot_{name}"] = {k: str(v) for k, v in cs.items()}
+        phase("state:" + name)
     # ---- discovery ----
     orders = ["asc", "forbidden_newest"] if q else ["asc", "desc", "forbidden_newest", "s1", "s2", "s3"]
-    cs = {"Orders": Def(perms(12, orders))}
+    cs = {"Orders": Def(perms(12, orders)), "MaxFiles": 5 if q else 12}
     cfg = make_cfg(cs, ["DiscoveryNeverSidecarOrTemp", "DiscoveryFindsBody", "DiscoveryPicksPresent"], [], emit=False, view=None,
                    constraint="EmitCase")
     res = run.tlc("SnapshotDir", cfg, name="SnapshotDir", workers=8, timeout_s=600, defs=split_defs(cs))
@@ -680,13 +719,16 @@ def check(run) -> None:
     outs = pmap(auto_writer_case, [(base, i) for i in range(8)], procs=1)
     _account(run, "SchemaMarker.pr34_writer", list(range(8)), outs, "auto", lambda i: {"auto": i})
     run.exhaustive = True
+    phase("discovery")
     # ---- random GEL histories ----
     n = 1500 if q else 25000
     args = [(base, run.seed, i) for i in range(n)]
     outs = pmap(c06_random.random_case, args)
     _account(run, "Random.chain_conforms", [list(a[1:]) for a in args], outs, "random", lambda a: {"random": a})
     run.sample({"family": "random", "example": c06_random.describe(run.seed, 0)}, cap=6)
+    phase("random")
     run.extra["states_replayed"] = nstate
+    run.extra["phase_wall_s"] = phases
     run.assumptions += [
         "small-scope hypothesis for the exhaustive part (<=3 ids, <=3 listed edges, <=3 store weights)",
         "weights of the exhaustive part are multiples of 1e-7 whose 7th digit is not 5; exact ties only in the random part (both neighbours admitted)",
@@ -694,7 +736,7 @@ def check(run) -> None:
         "SOURCE_DATE_EPOCH fixed; codec 'none' only (zstandard missing)",
         "store doubles export floats (WeightsOnly / ExportImport shapes of tests/test_snapshot_loader.py)",
     ]
-    shutil.rmtree(base, ignore_errors=True)
+    drop_scratch(base)
 
 
 def replay(rep) -> int:
